@@ -47,4 +47,5 @@ def run(ctx, rep):
     rep.run(RM.rule_every_function_group_gets_its_file, ctx, rep, "T16")
     rep.run(RM.rule_serialize_pair_complete, ctx, rep, "T17")
     rep.run(RM.rule_containers_registered_before_they_are_judged, ctx, rep, "T18")
+    rep.run(RI.rule_class_file_named_after_the_class, ctx, rep, "T19")
     rep.run(RF.rule_locals_defined, ctx, rep, "U1", packages=("gtwrap/matlab_wrapper",), min_functions=3)
